@@ -239,7 +239,7 @@ Proof.
   destruct (clean_site_parts _ Hs) as [Hv Ht].
   assert (Ro := clean_reals _ Ho). assert (Rv := clean_reals _ Hv). assert (Rt := clean_reals _ Ht).
   assert (Rpv : reals (parent (site_view st))) by now apply reals_removelast.
-  destruct st as [page target|page target|ctx view target|page target|view target|target];
+  destruct st as [page target|page target|ctx view target|page target|view target|view target|target];
     simpl in *.
   - rewrite resolve_app, relpath_resolves_gen, (normalise_id out Ro). now apply resolve_reals.
   - rewrite relpath_resolves_gen. apply normalise_id. now apply reals_app.
@@ -254,8 +254,19 @@ Proof.
   - apply Nat.eqb_eq in Hd. destruct view as [|vd [|vf [|x view]]]; try discriminate. simpl parent.
     rewrite resolve_up; auto; [now rewrite removelast_last|].
     apply reals_app. split; [exact Ro|exact Rpv].
+  - apply Nat.eqb_eq in Hd. destruct view as [|vd [|vf [|x view]]]; try discriminate. simpl parent.
+    rewrite resolve_up; auto; [now rewrite removelast_last|].
+    apply reals_app. split; [exact Ro|exact Rpv].
   - rewrite app_nil_r. now apply resolve_reals.
 Qed.
+
+Example site_resolves_graph_table :
+  let out := [s "srv"; s "doc"] in
+  let st := SGraphTable [s "module"; s "m0.html"] [s "module"; s "m1.html"] in
+  clean out = true /\ clean_site st = true /\ site_depth_ok st = true /\
+  site_url true [] out st = s "../module/m1.html" /\
+  resolve (out ++ parent (site_view st)) (site_rel out st) = out ++ site_target st.
+Proof. vm_compute. auto 6. Qed.
 
 Example site_resolves_nonvacuous :
   let out := [s "srv"; s "doc"] in
@@ -303,7 +314,7 @@ Proof.
   intros setting out st Ho Hs Hne.
   destruct (clean_site_parts _ Hs) as [Hv Ht].
   assert (CT : clean (out ++ site_target st) = true) by now apply clean_app.
-  destruct st as [page target|page target|ctx view target|page target|view target|target];
+  destruct st as [page target|page target|ctx view target|page target|view target|view target|target];
     simpl in *.
   - unfold page_project_url. destruct (relpath_first out (out ++ parent page) Ho) as (x & p & -> & F).
     now apply render_rel_first.
@@ -313,6 +324,7 @@ Proof.
     rewrite <- (app_nil_r (render_rel _)). now apply render_rel_first.
   - destruct (relpath_first _ (out ++ parent page) CT) as (x & p & -> & F).
     rewrite <- (app_nil_r (render_rel _)). now apply render_rel_first.
+  - reflexivity.
   - reflexivity.
   - destruct target as [|x t]; [congruence|].
     rewrite <- (app_nil_r (render_rel _)). apply render_rel_first, clean_comp_first_ok.
